@@ -7,7 +7,10 @@ FixedTargets == {TDyn, TStr, TNum, TBool, TList(TStr), TList(TNum), TList(TDyn),
    TObjOpt([a |-> TStr, b |-> TNum], <<"b">>), TObjOpt([a |-> TDyn, c |-> TList(TStr)], <<"c">>), TObjOpt([a |-> TBool, b |-> TStr], <<"a", "b">>),
    TList(TList(TNum)), TList(TList(TStr)), TSet(TList(TStr)), TMap(TList(TStr)), TList(TSet(TStr)), TList(TMap(TStr)),
    TList(TObjOpt([a |-> TNum, b |-> TStr], <<"b">>)), TMap(TObjOpt([b |-> TNum, c |-> TObjOpt([a |-> TStr], <<"a">>)], <<"c">>)), TSet(TTup(<<TStr, TStr>>)),
-   TObj([a |-> TList(TStr), b |-> TStr]), TObj([a |-> TObjOpt([b |-> TStr, c |-> TSet(TNum)], <<"c">>)])}
+   TObj([a |-> TList(TStr), b |-> TStr]), TObj([a |-> TObjOpt([b |-> TStr, c |-> TSet(TNum)], <<"c">>)]),
+   TObj([a |-> TList(TObjOpt([a |-> TNum, b |-> TStr], <<"b">>))]),
+   TObjOpt([a |-> TStr, c |-> TMap(TObjOpt([a |-> TNum, b |-> TStr], <<"b">>))], <<"c">>),
+   TObjOpt([a |-> TNum, b |-> TSet(TObjOpt([a |-> TStr, c |-> TNum], <<"c">>))], <<"b">>)}
 \* derived from the value's own type: the type itself and every single-position placeholder insertion
 RECURSIVE DynAt(_)
 DynAt(t) == {TDyn} \cup
@@ -29,7 +32,16 @@ Mine == SetToSeq({i \in 1..Len(TSeq) : i % ShardN = ShardI})
 Line(t) == [vals |-> [i \in 1..Len(SetToSeq(ValsOf(t))) |-> [v |-> SetToSeq(ValsOf(t))[i], cands |-> SetToSeq(CandsOf(SetToSeq(ValsOf(t))[i]))]],
             targets |-> SetToSeq(Targets(t))]
 ExtraLine == [vals |-> [i \in 1..Len(SetToSeq(Extra)) |-> [v |-> SetToSeq(Extra)[i], cands |-> <<>>]], targets |-> SetToSeq(FixedTargets)]
-ASSUME ndJsonSerialize(IOEnv.VOUT, [j \in 1..Len(Mine) |-> Line(TSeq[Mine[j]])] \o (IF ShardI = 0 THEN <<ExtraLine>> ELSE <<>>))
+\* unknown collections whose admitted members coalesce or collide under the element conversion
+S1 == StrV(<<"1">>)  STrue == StrV(<<"t", "r", "u", "e">>)  S10 == StrV(<<"1", ".", "0">>)
+CoalesceCands == {SeqV(TSet(TStr), <<S1, STrue>>), SeqV(TSet(TStr), <<S1, S10>>), SeqV(TSet(TStr), <<S1>>), SeqV(TSet(TStr), <<S1, S10, STrue>>)}
+ListCands == {SeqV(TList(TStr), <<S1, S1>>), SeqV(TList(TStr), <<S1, S10>>), SeqV(TList(TStr), <<S1, STrue, S1>>)}
+CoalesceUnks(t, C) == {u \in {Unk(t, [null |-> "F", minLen |-> 2]), Unk(t, [null |-> "U", minLen |-> 2, maxLen |-> 3]), Unk(t, [null |-> "F", minLen |-> 1]),
+                              Unk(t, [null |-> "F", minLen |-> 3, maxLen |-> 3]), Unk(t, [null |-> "F", minLen |-> 2, maxLen |-> 2])} : TRUE}
+CoalesceLine(t, C) == [vals |-> [i \in 1..Len(SetToSeq(CoalesceUnks(t, C))) |->
+                                   LET u == SetToSeq(CoalesceUnks(t, C))[i] IN [v |-> u, cands |-> SetToSeq({c \in C : Admits(u, c)})]],
+                       targets |-> <<TSet(TBool), TSet(TNum), TList(TBool), TList(TNum), TSet(TStr), TList(TStr), TSet(TDyn)>>]
+ASSUME ndJsonSerialize(IOEnv.VOUT, [j \in 1..Len(Mine) |-> Line(TSeq[Mine[j]])] \o (IF ShardI = 0 THEN <<ExtraLine, CoalesceLine(TSet(TStr), CoalesceCands), CoalesceLine(TList(TStr), ListCands)>> ELSE <<>>))
 ASSUME PrintT(<<"GEN", Len(Mine)>>)
 VARIABLE x
 Init == x = 0
